@@ -56,6 +56,9 @@ type Disk struct {
 	opCount    int64          // operations performed on this disk so far
 	crashAtOp  int64          // crash the node when opCount reaches this (0 = off)
 	crashAfter bool           // crash after performing the op instead of before
+	stableOps       int64 // stable-store operations performed so far (S2 sweeps)
+	crashAtStableOp int64
+	failAtStableOp  int64
 }
 
 func newDisk(n *Node) *Disk {
@@ -132,6 +135,7 @@ type JournalRec struct {
 	Ents  []Ent
 	Key   string
 	Val   uint64
+	Str   string
 	Err   string
 	State raft.RaftState
 }
@@ -160,6 +164,21 @@ func (s *store) pre(op string, mutating bool) error {
 		simrt.Sleep("disk-slow", time.Duration(1+w.ch.Choose(simrt.SDisk, 50))*time.Millisecond)
 		s.inc.checkAlive()
 	}
+	if op == "Set" || op == "SetUint64" || op == "Get" || op == "GetUint64" {
+		d.stableOps++
+		if d.crashAtStableOp == d.stableOps && !d.crashAfter {
+			d.crashAtStableOp = 0
+			w.stats.fault("crash_before_stable_op")
+			w.crashNow(s.inc.node, "before stable "+op)
+			s.inc.checkAlive()
+		}
+		if d.failAtStableOp == d.stableOps {
+			d.failAtStableOp = 0
+			w.stats.fault("stable_op_error")
+			w.stats.fault("disk_op_error")
+			return errInjected
+		}
+	}
 	if d.crashAtOp != 0 && d.opCount == d.crashAtOp && !d.crashAfter {
 		d.crashAtOp = 0
 		w.stats.fault("crash_before_disk_op")
@@ -187,6 +206,12 @@ func (s *store) pre(op string, mutating bool) error {
 // post runs after the operation took effect: crash-after point and scheduling point.
 func (s *store) post(op string) {
 	d := s.d
+	if (op == "Set" || op == "SetUint64") && d.crashAtStableOp != 0 && d.crashAtStableOp == d.stableOps && d.crashAfter {
+		d.crashAtStableOp = 0
+		s.w.stats.fault("crash_after_stable_op")
+		s.w.crashNow(s.inc.node, "after stable "+op)
+		s.inc.checkAlive()
+	}
 	if d.crashAtOp != 0 && d.opCount == d.crashAtOp && d.crashAfter {
 		d.crashAtOp = 0
 		s.w.stats.fault("crash_after_disk_op")
@@ -310,7 +335,7 @@ func (s *store) DeleteRange(min, max uint64) error {
 }
 
 func (s *store) Set(key []byte, val []byte) error {
-	rec := JournalRec{Op: "Set", Key: string(key)}
+	rec := JournalRec{Op: "Set", Key: string(key), Str: string(val)}
 	if err := s.pre("Set", true); err != nil {
 		rec.Err = err.Error()
 		s.journal(rec)
